@@ -7,6 +7,7 @@ import (
 	"io"
 	"io/ioutil"
 	"os"
+	"sort"
 	"strconv"
 	"strings"
 
@@ -516,6 +517,9 @@ func parseServiceConfig(configs map[string]ServiceConfig) []network.ServiceIdent
 		}
 	}
 
+	// Go randomises the iteration order of maps: sort by service name so that
+	// the same file always yields the same identities (and roster id).
+	sort.Sort(network.ServiceIdentities(si))
 	return si
 }
 
@@ -534,6 +538,9 @@ func parseServerServiceConfig(configs map[string]ServerServiceConfig) []network.
 		}
 	}
 
+	// Go randomises the iteration order of maps: sort by service name so that
+	// the same file always yields the same identities (and roster id).
+	sort.Sort(network.ServiceIdentities(si))
 	return si
 }
 
